@@ -647,10 +647,15 @@ def run(r):
     r.exhaustive = False
     for i, line in enumerate(lines):
         f = line.split("\t")
-        if len(f) != 7:
+        if len(f) != 8:
             r.broken.append(f"malformed harness line {i}")
             continue
-        case, impl, detail, meta, rblock, fresh, recov = f
+        case, impl, detail, meta, rblock, fresh, recov, entry = f
+        r.hist["entry points agree"][":".join(entry.split(":")[:2])] += 1
+        if entry.startswith("diff:"):
+            _, which, rest = entry.split(":", 2)
+            r.oracle_failure(case, f"{which} does not give what Template::render / State::render_block give for the same templates and variables: "
+                             f"render {impl[:300]} — {which} {rest[:400]}", "entry-point-differs:" + which + ":" + case.split(" ", 1)[0].split("~")[0])
         if re.search(r" fx \d \w+ [!?]", case):
             r.broken.append(f"a filter / test expression of the menu does not render on its own: {case[:200]}")
         r.hist["recovery after a failed render_block"][recov.split(":")[0] + (":" + recov.split(":")[1] if recov.startswith("same:") else "")] += 1
